@@ -154,6 +154,11 @@ def sweep_rules(prog, rep):
             rep.check(ok, "FILL", fi.short, cons[:80], "equal data: one event covers [e1.ts, e2.end], the other is emptied", f"equal data: after the merge e1 = [{t1!r}, +{d1!r}], e2 = [{t2!r}, +{d2!r}]: the merged event does not cover [e1.ts, e2.end] or the other is not emptied (time lost or counted twice)", fi.loc(lp), expected="one covers [e1.ts, e2.ts + e2.dur], the other has duration 0", found=f"e1=[{t1!r}; {d1!r}] e2=[{t2!r}; {d2!r}]")
         else:
             rep.violation("FILL", fi.short, cons[:80], "neighbours are rewritten on a path that does not compare their data: labels can be merged across different data", fi.loc(lp))
+        # cut points stay on the grid of the inputs: Event.timestamp floors what it is given to the millisecond, so a new start
+        # that is not an integer combination of the inputs' instants and durations (gap / 2, a scaled duration) is moved by
+        # the setter while the neighbour's end, computed from the exact value, is not: the two then overlap or leave a hole
+        offgrid = [k for k, v in fw.items() if k.endswith(".timestamp") and any(c.denominator != 1 for c in v.terms.values())]
+        rep.check(not offgrid, "FILL", fi.short, (cons + " [grid]")[:80], "new start instants are integer combinations of the inputs' instants and durations", f"`{offgrid[0] if offgrid else ''}` is set to {fw.get(offgrid[0]) if offgrid else ''!r}, which has a fractional coefficient: for inputs on the millisecond grid the point can fall between two grid points, the timestamp setter floors it and the other event's end (computed from the exact value) no longer meets it: the outputs overlap by a fraction of a millisecond", fi.loc(lp))
         # the right neighbour is the left element of the next pair: the next gap is measured from its end
         rep.check(t2 + d2 == end2, "FILL-NEXT", fi.short, cons[:80], "e2.ts' + e2.dur' == e2.ts + e2.dur", f"after the fill the right neighbour ends at {(t2 + d2)!r} instead of its original end {end2!r}: it is the left element of the next pair, so the next gap is measured from the wrong instant (a chain of three events then overlaps or keeps a short gap open)", fi.loc(lp), expected=f"{end2!r}", found=f"{(t2 + d2)!r}")
     rep.floor("flood fill sub-branches", n_fill, 4)
@@ -195,9 +200,14 @@ def check(prog, rep):
 
     duration_dispatch(prog, rep)
     sweep_rules(prog, rep)
+    # the transform's own copies (deepcopy of events) separate its output from its input only if Event keeps the default copy protocol
+    from ..rules_own import copy_protocol
+
+    copy_protocol(prog, rep)
 
 
 VARIANTS = [
+    ("B equally long neighbours with differing data meet in the middle of the gap", "aw_transform/flood.py", "            if e1.duration >= e2.duration:\n", "            if e1.duration == e2.duration and e1.data != e2.data:\n                middle = e1.timestamp + e1.duration + gap / 2\n                e1.duration = middle - e1.timestamp\n                e2.timestamp = middle\n                e2.duration = e2_end - e2.timestamp\n            elif e1.duration >= e2.duration:\n", "FILL"),
     ("B deepcopy removed", F, "    events = deepcopy(events)\n", "", "PURE"),
     ("B shallow copy", F, "    events = deepcopy(events)\n", "    events = list(events)\n", "PURE"),
     ("B zero-length kept", F, "if e.duration > timedelta(0)]", "if e.duration >= timedelta(0)]", "POSITIVE"),
